@@ -337,7 +337,7 @@ pub fn run(cfg: &Cfg, rep: &mut Report) -> PropMeta {
     run_cases(cfg, "big_ckks", cfg.pick(3, 24), rep, |i, rng, rep| ckks_case(cfg, "big_ckks", i, rng, rep, cfg.pick(&[1024, 2048][..], &[1024, 2048, 4096][..])));
     PropMeta {
         id: "C04", level: "exploration",
-        rule: "N=4..32: every odd Galois element g<2N through apply_galois (BFV/BGV exact polynomials, CKKS coefficient vectors) and every rotation step -(N/2-1)..N/2-1 through rotate_rows / rotate_vector with (a) keys for exactly those steps and (b) the default power-of-two key set (NAF composition), rotate_columns, complex_conjugate, at every level, random API form, seeded and unseeded keys; secret-key switching s' -> s in three schemes at every level; N=64..4096 sampled. distinct = distinct (operation, scheme, key set, N, level, element/step) tuples",
+        rule: "N=4..32: every odd Galois element g<2N through apply_galois (BFV/BGV exact polynomials, CKKS coefficient vectors) and every rotation step -(N/2-1)..N/2-1 through rotate_rows / rotate_vector with (a) keys for exactly those steps and (b) the default power-of-two key set (NAF composition), rotate_columns, complex_conjugate, at every level, random API form, seeded and unseeded keys; secret-key switching s' -> s in three schemes at every level; N=64..4096 sampled. distinct = distinct (operation, scheme, key set, N, level, element/step) tuples. For every element applied to the fresh BFV/BGV ciphertext the plaintext-side map apply_galois_plain (one of its three forms, dirty destination) must give the same polynomial X -> X^g",
         assumptions: vec!["parameter sets with a special prime at least as large as the data primes, so key-switch noise 21*N*sum(q_i)/P + N stays far below the threshold (checked per level)".into(),
             "slot-level expectations read through the batch decoder (checked against naive evaluation by C11) and, independently, polynomial-level expectations through the oracle decryptor (N<=64)".into()],
         exhaustive: true, floor: 2000,
